@@ -22,6 +22,8 @@ ASSUMPTIONS = []
 NOT_DECIDED = "descriptor accounting over fill/drain histories"
 LEAKS = ("forget", "into_raw_fd", "leak", "into_raw", "ManuallyDrop")
 
+POSITIVE_CONTROLS = [("R10.5", "leaks")]
+
 
 def run(ctx):
     ctx.rule("R10.1", "insertion only behind connections.len() != MAX_CONNECTIONS; MAX_CONNECTIONS = 10")
